@@ -187,6 +187,38 @@ func runC08(res *Result, d *Driver, tier string, seed uint64) {
 		}
 	}
 
+	// a limit the kernel refuses is reported, never silently skipped: (a) fault injection at every step of
+	// option sets with rlimits on the regenerated child, errnos EPERM/EINVAL; (b) a real refusal: a soft/hard
+	// value above the inherited hard limit in a runner without CAP_SYS_RESOURCE in the initial user namespace
+	for i := 0; i < 150; i++ {
+		n := rng.Next()&(1<<29-1) | 1<<27
+		for _, e := range []int{1, 22} {
+			line := fmt.Sprintf("c07.fail %d %d", n, e)
+			ans := strings.Fields(d.Ask(line))
+			res.Case(line, true, "rlimit-fault")
+			if len(ans) < 2 || ans[1] != "-" {
+				res.Mismatch(Mismatch{Kind: "oracle", What: "a refused limit (or any failing step) is reported and the program never runs (regenerated child)", Input: line, Impl: strings.Join(ans, " "), Oracle: "violates"})
+			}
+		}
+	}
+	{
+		var old syscall.Rlimit
+		syscall.Getrlimit(syscall.RLIMIT_NOFILE, &old)
+		low := syscall.Rlimit{Cur: 512, Max: 512}
+		if syscall.Setrlimit(syscall.RLIMIT_NOFILE, &low) == nil {
+			lims := (&rlimit.RLimits{OpenFile: 1024}).PrepareRLimit()
+			rr, out := runUnshareProbe(RunSpec{Script: "report rlimits;exit 0", RLimits: lims}, "", nil)
+			syscall.Setrlimit(syscall.RLIMIT_NOFILE, &old)
+			got := parseRlimits(out)["nofile"]
+			res.Case("refused-limit unshare", true, "refused-limit")
+			res.Traces++
+			if !(rr.Status == runner.StatusRunnerError && rr.Error != "") && got != "1024:1024" {
+				res.Mismatch(Mismatch{Kind: "oracle", What: "a configured limit the kernel refuses must be reported (or be in force), never silently skipped", Input: "NOFILE 1024:1024 above inherited hard limit 512 in the namespace runner",
+					Impl: fmt.Sprintf("status=%v err=%q program saw nofile=%s", rr.Status, rr.Error, got), Oracle: "violates"})
+			}
+		}
+	}
+
 	// ---- part C: verdict mapping ----
 	tmpf, _ := os.CreateTemp("", "verif-c08-grow-")
 	tmpf.Close()
